@@ -2,7 +2,8 @@
 (***************************************************************************)
 (* C05: the tree built by the actions of a real generated parser for every *)
 (* operator/operand sequence, against Climb!Tree.                          *)
-(* Cases[c] = [ops |-> <<[t, lvl, assoc]>>, lp, rp, atom]                   *)
+(* Cases[c] = [ops |-> <<[t, lvl, assoc]>>, lp, rp, atom, off]              *)
+(*   off = 1: the judged rule sits behind one leading token (s = DEC t)    *)
 (* Runs[r]  = [c, w, ok, events]                                           *)
 (***************************************************************************)
 EXTENDS Integers, Sequences, FiniteSets, TLC, Json, Climb
@@ -20,7 +21,8 @@ RECURSIVE RealTree(_, _, _)
 \* rebuild the tree from the recorded action calls (node id -> arguments)
 RealTree(acts, C, id) ==
   LET a == acts[id + 1].args
-  IN IF Len(a) = 1 THEN (IF a[1].k = "t" THEN <<"a", a[1].i, <<>>, <<>>>> ELSE RealTree(acts, C, a[1].i))
+  IN IF Len(a) = 2 /\ a[1].k = "t" /\ a[2].k # "t" THEN RealTree(acts, C, a[2].i)     \* s = DEC t : the other rule of a two-rule table
+     ELSE IF Len(a) = 1 THEN (IF a[1].k = "t" THEN <<"a", a[1].i, <<>>, <<>>>> ELSE RealTree(acts, C, a[1].i))
      ELSE IF Len(a) = 3 /\ a[1].k = "t" /\ a[1].ty = C.lp THEN <<"p", 0, RealTree(acts, C, a[2].i), <<>>>>
      ELSE IF Len(a) = 3 /\ a[2].k = "t" THEN <<"b", a[2].i, RealTree(acts, C, a[1].i), RealTree(acts, C, a[3].i)>>
      ELSE IF Len(a) = 4 THEN <<"f", 0, RealTree(acts, C, a[3].i), <<>>>>
@@ -34,8 +36,8 @@ Check ==
       LvlF == [t \in opset |-> C.ops[Lvl[t]].lvl]
       AscF == [t \in opset |-> C.ops[Lvl[t]].assoc]
       acts == Filter(R.events)
-      want == Tree(R.w, LvlF, AscF, C.lp, C.rp, FALSE, <<1, Len(R.w)>>)
-      allleft == Tree(R.w, LvlF, AscF, C.lp, C.rp, TRUE, <<1, Len(R.w)>>)
+      want == Tree(R.w, LvlF, AscF, C.lp, C.rp, FALSE, <<1 + C.off, Len(R.w)>>)
+      allleft == Tree(R.w, LvlF, AscF, C.lp, C.rp, TRUE, <<1 + C.off, Len(R.w)>>)
       got == IF R.ok /\ acts # <<>> THEN RealTree(acts, C, Len(acts) - 1) ELSE <<"rejected", 0, <<>>, <<>>>>
   IN IF got = want THEN TRUE
      ELSE PrintT(ToJson([climb |-> "bad", r |-> rid - 1, c |-> R.c - 1, got |-> got, want |-> want,
